@@ -140,6 +140,8 @@ def run(tier, seed):
             add([100000] * i + ["zero"], False, "zero_at")
             add([100000] * i + ["error"], False, "error_at")
             add([2] * i + ["error"], False, "error_at_small")
+            # the other kinds of hard error (only Interrupted may be retried: WouldBlock, TimedOut ... must surface like any other)
+            add([100000] * i + [("would_block", "timed_out", "broken_pipe", "unexpected_eof")[i % 4]], False, "error_kind_at")
         add([100000] * 2 + ["error"], True, "error_forever")
     obs = common.run_harness(cmds, per_cmd_timeout=60)
     count = {}
@@ -153,7 +155,7 @@ def run(tier, seed):
         steps = o["steps"]
         panics = [s for s in steps if s["res"] == "panic"]
         errs = [s for s in steps if s["res"] == "err"]
-        injected = kind in ("zero_at", "error_at", "error_at_small", "error_forever")
+        injected = kind in ("zero_at", "error_at", "error_at_small", "error_forever", "error_kind_at")
         # did the injected fault actually happen? (the sink log says so)
         fault_hit = any(e[2] in (0, -2) for e in o["sink_log"])
         ref_errs = [i for i, s in enumerate(ref["steps"]) if s["res"] == "err"]
@@ -183,7 +185,7 @@ def run(tier, seed):
     #      the accepted values; validated by Trace_Writer with res = "err_io" on the call the sink failed in
     tcmds, tobs, twalk_in = [], [], []
     for c, (kind, ci), o in zip(cmds, kinds, obs):
-        if kind in ("zero_at", "error_at") and o.get("res") == "ok" and o["build"]["res"] == "ok":
+        if kind in ("zero_at", "error_at", "error_kind_at") and o.get("res") == "ok" and o["build"]["res"] == "ok":
             ref = refs[ci]
             o2 = json.loads(json.dumps(o))
             for a, b in zip(o2["steps"], ref["steps"]):
@@ -335,7 +337,7 @@ def replay(path):
     kind = sc.get("kind", "")
     fault_hit = any(e[2] in (0, -2) for e in o.get("sink_log", []))
     if not bad:
-        if kind in ("zero_at", "error_at", "error_at_small", "error_forever") and fault_hit:
+        if kind in ("zero_at", "error_at", "error_at_small", "error_forever", "error_kind_at") and fault_hit:
             bad = not (o["build"]["res"] == "err" or any(a["res"] == "err" and b["res"] == "ok" for a, b in zip(steps, ref["steps"])))
         else:
             bad = o.get("sink") != ref.get("sink") or [s["res"] for s in steps] != [s["res"] for s in ref["steps"]]
